@@ -138,7 +138,7 @@ package main
 //@   loop 3 (i)
 //@     invariant deny-list-untouched: ad.Deny == deny && len(ad.Allow) == len(allow) && 0 <= $idx__3 && $idx__3 < len(deny) && filter__2 == $denyAt($idx__3) && exp__2 != nil && $pat(exp__2) == "^(?:" + filter__2 + ")$" && forall(dd, 0, len(deny), deny[dd] == $denyAt(dd))
 //@     invariant denied-so-far-blanked: forall(k, 0, len(result), result[k] == "" || !$deniedUpTo($idx__3, result[k]))
-//@     invariant current-filter-applied: -1 <= $idx__5 && $idx__5 < len(result) && forall(k, 0, $idx__5 + 1, result[k] == "" || !$reMatch("^(?:" + filter__2 + ")$", result[k]))
+//@     invariant current-filter-applied: -1 <= $idx__4 && $idx__4 < len(result) && forall(k, 0, $idx__4 + 1, result[k] == "" || !$reMatch("^(?:" + filter__2 + ")$", result[k]))
 //@     invariant selected-allowed: len(allow) > 0 ==> forall(k, 0, len(result), result[k] == "" || $allowedUpTo(len(allow), result[k]))
 //@   loop 4 (i)
 //@     invariant all-denied-blanked: len(ad.Deny) == len(deny) && len(ad.Allow) == len(allow) && forall(k, 0, len(result), result[k] == "" || !$deniedUpTo(len(deny), result[k]))
